@@ -67,6 +67,14 @@ impl Program {
         T: Into<String>,
     {
         let path = path.into().replace('\\', "/");
+        // `./x.mmm` and `x.mmm` are one file. The labels inside the bytecode are written without `.` components
+        // (the compiler drops them from the path it is given and from import paths): the entry file is known
+        // under the same spelling, whichever of the two the user typed
+        let path: std::path::PathBuf = std::path::Path::new(&path)
+            .components()
+            .filter(|component| !matches!(component, std::path::Component::CurDir))
+            .collect();
+        let path = path.to_string_lossy().replace('\\', "/");
         let entrypoint = Rc::new(path);
 
         let main_file = MScriptFile::open(Rc::clone(&entrypoint))?;
